@@ -355,6 +355,9 @@ func c13OperatorRandom(r *Run) func(c *Case, rng *Rng) {
 			nx = 1
 		}
 		sameHook := rng.Chance(70)
+		// 30%: the executions (the operator's single ObjectPatcher serves them all) address a kind served
+		// at two versions, each its own objects at both versions
+		twoVersions := rng.Chance(30)
 		var xs []*c13Exec
 		var hot []*c13Key
 		for i := 0; i < nx; i++ {
@@ -367,11 +370,24 @@ func c13OperatorRandom(r *Run) func(c *Case, rng *Rng) {
 			}
 			g := &c13Gen{rng: rng, c: c}
 			pool := c13KeysOfParity(x.parity)
-			for n := rng.Range(1, 3); n > 0; n-- {
-				if rng.Chance(90) {
+			if twoVersions {
+				var grps [][]*c13Key
+				for _, grp := range c13Versioned() {
+					if grp[0].id%2 == x.parity {
+						grps = append(grps, grp)
+					}
+				}
+				g.only = append(g.only, PickOne(rng, grps)...)
+				if rng.Chance(30) {
 					g.only = append(g.only, PickOne(rng, pool[:4]))
-				} else {
-					g.only = append(g.only, PickOne(rng, pool[4:]))
+				}
+			} else {
+				for n := rng.Range(1, 3); n > 0; n-- {
+					if rng.Chance(90) {
+						g.only = append(g.only, PickOne(rng, pool[:4]))
+					} else {
+						g.only = append(g.only, PickOne(rng, pool[4:]))
+					}
 				}
 			}
 			hot = append(hot, g.only...)
@@ -405,6 +421,7 @@ func c13OperatorRandom(r *Run) func(c *Case, rng *Rng) {
 			overlap = s != "LA WA EA LB WB EB" && s != "LB WB EB LA WA EA"
 		}
 		c.Note(fmt.Sprintf("op-level:executions:%d same-hook:%v overlap:%v", nx, nx == 2 && sameHook, overlap))
+		c.Note(fmt.Sprintf("op-level:one-kind-at-two-versions:%v", twoVersions))
 		c.Desc = fmt.Sprintf("operator-level: %d execution(s), same hook=%v, schedule %s", nx, sameHook, strings.Join(sched, " "))
 		for _, x := range xs {
 			c.Desc += fmt.Sprintf("; %s: %d docs %s %s exit=%d", x.name, len(x.docs), x.mode, x.form, x.exit)
